@@ -2908,7 +2908,13 @@ primary_expression
         {
           if ($3.value.integer != 0)
           {
-            $$.value.integer = OPERATION(/, $1.value.integer, $3.value.integer);
+            // INT64_MIN / -1 overflows and raises SIGFPE; the result is
+            // undefined, exactly as OP_INT_DIV does at scan time.
+            if ($1.value.integer == INT64_MIN && $3.value.integer == -1)
+              $$.value.integer = YR_UNDEFINED;
+            else
+              $$.value.integer = OPERATION(/, $1.value.integer, $3.value.integer);
+
             $$.type = EXPRESSION_TYPE_INTEGER;
           }
           else
@@ -2932,7 +2938,12 @@ primary_expression
 
         if ($3.value.integer != 0)
         {
-          $$.value.integer = OPERATION(%, $1.value.integer, $3.value.integer);
+          // INT64_MIN % -1 overflows and raises SIGFPE, see OP_MOD.
+          if ($1.value.integer == INT64_MIN && $3.value.integer == -1)
+            $$.value.integer = YR_UNDEFINED;
+          else
+            $$.value.integer = OPERATION(%, $1.value.integer, $3.value.integer);
+
           $$.type = EXPRESSION_TYPE_INTEGER;
         }
         else
